@@ -221,7 +221,7 @@ def alias_rule(chk, db):
         chk.analysis_broken("ALIAS: only %d members take the element by const reference (floor 5)" % n)
 
 
-META_EXTRA = 'ALIAS (value parameter read before elements are shifted); SLOTS-W (grown slots are written).'
+META_EXTRA = 'ALIAS (value parameter read before elements are shifted); SLOTS-W (grown slots are written); POST (the size every mutating member leaves equals its specification; callees by their specification; counting loops summarised); PARAM (every named parameter is consulted).'
 META = (META[0] + " " + META_EXTRA, META[1])
 
 
